@@ -28,6 +28,37 @@ class _Purity(DefaultVisitor):
     def __init__(self, ast: FuncDef | Expr, def_use: DefineUseAnalysis):
         self.ast = ast
         self.def_use = def_use
+        self._alias = None
+
+    def _writes_callers_list(self, stmt: IndexedAssign) -> bool:
+        """Does ``xs[i]… = e`` write into a list the caller (or the
+        environment) also holds, reached through *another* name -- ``ys = xs;
+        ys[0] = e``, ``row = xss[0]; row[0] = e``, ``for row in xss: row[0] = e``?
+
+        The definition chain only sees stores made through the parameter's own
+        name; what else names the same list is the alias analysis' question.
+        Without it (the function does not type-check) the store counts as a
+        write to the caller's list."""
+        # deferred: `alias` imports the type checker, which this module's users need not load
+        from .alias import Alias
+        assert isinstance(self.ast, FuncDef)
+        if self._alias is None:
+            try:
+                self._alias = Alias.analyze(self.ast, self.def_use)
+            except Exception:  # noqa: BLE001 -- no alias information: assume the worst
+                return True
+        d = self.def_use.find_def_from_use(stmt)
+        region = self._alias.region_of(d, len(stmt.indices) - 1)
+        if region is None:
+            return False
+        # a `param` site is the caller's list; a `call` site is whatever the
+        # callee returned, which may be a list it was handed or had captured
+        if any(site.kind in ('param', 'call') for site in self._alias.sites_at(region)):
+            return True
+        return any(
+            isinstance(o, AssignDef) and isinstance(o.site, Argument | FuncDef)
+            for o in self._alias.defs_in(region)
+        )
 
     def apply(self) -> bool:
         try:
@@ -80,6 +111,8 @@ class _Purity(DefaultVisitor):
                 # modifying an argument or a free variable
                 raise _ImpureError(f'Impure: Indexed assignment {stmt}')
             worklist.extend(self.def_use.defs[i] for i in same_object_defs(d))
+        if isinstance(self.ast, FuncDef) and self._writes_callers_list(stmt):
+            raise _ImpureError(f'Impure: Indexed assignment through an alias {stmt}')
 
 
 class Purity:
